@@ -160,6 +160,10 @@ def run(R):
             return 'timeout'
         except RecursionError:
             return 'RecursionError'
+    # every entry point of the PARENT module (module-level parse, rules, the class) is observed before and after the
+    # derived modules are compiled and used
+    ENTRIES = [None, 'W', 'L', 'D', 'K']
+    TXE = TX[:40] + ['x', 'xa', 'ax', '(x)', '<a>', 'l', 'a0']
     for uid in range(n):
         depth = rnd.choice([2, 2, 3, 3])
         levels = gen_levels(rnd, depth, with_ignore=rnd.random() < 0.5)
@@ -174,7 +178,7 @@ def run(R):
                 g = Grammar(lv.describe(uid))
                 mods.append(g)
                 if i == 0:
-                    before = [safe_outcome(g, t) for t in TX]
+                    before = [safe_outcome(g, t, en) for en in ENTRIES for t in TXE]
         except Exception as e:                  # noqa
             errs = f'{type(e).__name__}: {e}'
         case = {'chain': [lv.describe(uid) for lv in levels]}
@@ -212,10 +216,12 @@ def run(R):
             else:
                 R.traces += 1
         # parent untouched by creating and using the derived modules
-        after = [safe_outcome(mods[0], t) for t in TX]
+        after = [safe_outcome(mods[0], t, en) for en in ENTRIES for t in TXE]
+        R.count('parent-untouched', uid, nontrivial=True)
         if after != before:
             i = next(i for i, (a, b) in enumerate(zip(before, after)) if a != b)
-            R.counterexample('parent-untouched', 'parent-behaviour-changed', dict(case, text=TX[i]), before[i], after[i])
+            R.counterexample('parent-untouched', 'parent-behaviour-changed',
+                             dict(case, entry=ENTRIES[i // len(TXE)] or 'parse', text=TXE[i % len(TXE)]), before[i], after[i])
         # inherited entry points: B.R.parse for an inherited rule R uses B's definitions of what R refers to
         if depth >= 2:
             lv, g = levels[-1], mods[-1]
